@@ -47,6 +47,13 @@ type JitterPool struct {
 type jitterReader struct {
 	r io.Reader
 	j *Jitter
+
+	// data-with-EOF mode (like iotest.DataErrReader): the last bytes are
+	// returned together with io.EOF, as zip-backed pools and many network
+	// readers do. Allowed by the io.Reader contract.
+	dataErr bool
+	pending []byte
+	err     error
 }
 
 func (jr *jitterReader) Read(p []byte) (int, error) {
@@ -59,7 +66,25 @@ func (jr *jitterReader) Read(p []byte) (int, error) {
 		p = p[:n]
 	}
 	jr.j.Pause(jr.j.Next())
-	return jr.r.Read(p)
+	if !jr.dataErr {
+		return jr.r.Read(p)
+	}
+	// read ahead so that we know whether the bytes we hand out are the last ones
+	for jr.err == nil && len(jr.pending) <= len(p) {
+		buf := make([]byte, len(p)+1)
+		n, err := jr.r.Read(buf)
+		jr.pending = append(jr.pending, buf[:n]...)
+		jr.err = err
+		if n == 0 && err == nil {
+			break
+		}
+	}
+	n := copy(p, jr.pending)
+	jr.pending = jr.pending[n:]
+	if len(jr.pending) == 0 && jr.err != nil {
+		return n, jr.err
+	}
+	return n, nil
 }
 
 func (p *JitterPool) GetReader(i int64) (io.Reader, error) {
@@ -67,5 +92,7 @@ func (p *JitterPool) GetReader(i int64) (io.Reader, error) {
 	if err != nil {
 		return nil, err
 	}
-	return &jitterReader{r, p.J}, nil
+	// the first byte of the jitter string selects data-with-EOF mode for the whole case
+	dataErr := p.J != nil && len(p.J.B) > 0 && p.J.B[0]&1 == 1
+	return &jitterReader{r: r, j: p.J, dataErr: dataErr}, nil
 }
